@@ -54,12 +54,18 @@ class Env:
     def __init__(self):
         self.t = {}
         self.keep = []
+        self.owned = []
+
+    def owned_modified(self):
+        return [what for a, c, what in self.owned if not (a.shape == c.shape and np.array_equal(a, c, equal_nan=True))]
 
     def operand(self, o):
         if isinstance(o, str):
             return self.t[o]
         if "array" in o:
-            return make_array(o["array"])
+            a = make_array(o["array"])
+            self.owned.append((a, a.copy(), "array operand"))     # caller-owned: must never be modified
+            return a
         if "scalar" in o:
             return o["scalar"]
         raise ValueError(o)
@@ -99,7 +105,11 @@ def call(fn, spell, ops, p, kw):
     if fn == "cumsum":
         return mg.cumsum(ops[0], axis=p["axis"], **kw)
     if fn == "getitem":
-        return ops[0][py_index(p["index"])]
+        ix = py_index(p["index"])
+        for e in (ix if isinstance(ix, tuple) else (ix,)):
+            if isinstance(e, np.ndarray):
+                INDEX_ARRAYS.append((e, e.copy(), "index array"))
+        return ops[0][ix]
     if fn == "reshape":
         return ops[0].reshape(tuple(p["shape"])) if spell == "method" else mg.reshape(ops[0], tuple(p["shape"]), **kw)
     if fn == "transpose":
@@ -153,6 +163,7 @@ def call(fn, spell, ops, p, kw):
 
 
 OBSERVE_ERRORS = []
+INDEX_ARRAYS = []
 
 
 def observe(env):
@@ -270,6 +281,7 @@ def run_case(case):
     env = Env()
     outcomes, observations = [], []
     identity_lost = []
+    owned_modified = []
     ids = {}
     dead_refs = {}
     mode = case.get("observe", "backward")
@@ -289,6 +301,8 @@ def run_case(case):
                 if s.get("const") is not None:
                     kw["constant"] = s["const"]
                 r = call(s["fn"], s.get("spell", "mg"), ops, s.get("params", {}), kw)
+                env.owned.extend(INDEX_ARRAYS)
+                del INDEX_ARRAYS[:]
                 env.t[s["name"]] = r
                 del ops, r
             elif k == "backward":
@@ -308,15 +322,22 @@ def run_case(case):
                         big[0] = arr
                         sv = big[0:1].reshape(())
                     env.keep.append(big)
+                    env.owned.append((big, big.copy(), "array the seed gradient is a view of"))
                     env.t[s["t"]].backward(sv)
                 else:
-                    env.t[s["t"]].backward(make_array(seed))
+                    sd = make_array(seed)
+                    env.owned.append((sd, sd.copy(), "seed gradient"))
+                    env.t[s["t"]].backward(sd)
             elif k == "clear":
                 env.t[s["t"]].clear_graph()
             elif k == "null_grad":
                 env.t[s["t"]].null_grad()
             elif k == "setitem":
-                env.t[s["t"]][py_index(s["index"])] = env.operand(s["value"])
+                ix = py_index(s["index"])
+                for e in (ix if isinstance(ix, tuple) else (ix,)):
+                    if isinstance(e, np.ndarray):
+                        env.owned.append((e, e.copy(), "index array"))
+                env.t[s["t"]][ix] = env.operand(s["value"])
             elif k == "setshape":
                 env.t[s["t"]].shape = tuple(s["shape"])
             elif k == "fail":
@@ -356,6 +377,10 @@ def run_case(case):
             if exc in ("Other",):
                 exc = "Other:%s:%s" % (type(e).__name__, str(e)[:200])
         outcomes.append(exc)
+        om = env.owned_modified()
+        if om:
+            owned_modified.append([i, om[0]])
+            env.owned = [(a, a.copy(), w) for a, c, w in env.owned]
         for n, t in env.t.items():
             if isinstance(t, mg.Tensor):
                 if n in ids and ids[n] != id(t):
@@ -377,7 +402,7 @@ def run_case(case):
     env.t.clear()
     errs = list(OBSERVE_ERRORS)
     del OBSERVE_ERRORS[:]
-    return {"outcomes": outcomes, "observations": observations, "alive": alive, "identity_lost": identity_lost, "observe_errors": errs}
+    return {"outcomes": outcomes, "observations": observations, "alive": alive, "identity_lost": identity_lost, "observe_errors": errs, "owned_modified": owned_modified}
 
 
 def run_repeat(case):
